@@ -7,6 +7,8 @@ package vrt
 import (
 	"fmt"
 	"os"
+	"reflect"
+	"runtime"
 	"sort"
 	"strconv"
 	"strings"
@@ -233,4 +235,91 @@ func OnDiscard(p any) {
 	if DiscardHook != nil {
 		DiscardHook(p)
 	}
+	if poolTrack {
+		trackDiscard(p)
+	}
+}
+
+// Pool tracking (C14): an object handed to Discard sits in its pool until getT hands it out again; a second
+// Discard of an object that is still in its pool puts it there twice, and two later allocations get the same object.
+var (
+	poolTrack   bool
+	poolMu      sync.Mutex
+	inPool      map[uintptr]pooled // holds the object: its address cannot be re-used by an unrelated allocation while it is recorded
+	doubleFrees []string
+)
+
+type pooled struct {
+	obj any
+	who string
+}
+
+// TrackPools switches the tracking on (and clears what was recorded).
+func TrackPools(on bool) {
+	poolMu.Lock()
+	poolTrack, inPool, doubleFrees = on, map[uintptr]pooled{}, nil
+	poolMu.Unlock()
+}
+
+// DoubleDiscards returns and clears the recorded double discards ("<second caller> after <first caller>").
+func DoubleDiscards() []string {
+	poolMu.Lock()
+	d := doubleFrees
+	doubleFrees = nil
+	poolMu.Unlock()
+	return d
+}
+
+// ptrKey is the address of a pooled value object (0 for anything Discard does not put into a pool: booleans,
+// ternaries and NULL are shared constants).
+func ptrKey(p any) uintptr {
+	v := reflect.ValueOf(p)
+	if v.Kind() == reflect.Pointer && !v.IsNil() {
+		switch v.Type().Elem().Name() {
+		case "String", "Integer", "Float", "Datetime":
+			return v.Pointer()
+		}
+	}
+	return 0
+}
+
+func csvqCaller() string {
+	pcs := make([]uintptr, 14)
+	n := runtime.Callers(3, pcs)
+	fr := runtime.CallersFrames(pcs[:n])
+	for {
+		f, more := fr.Next()
+		if strings.Contains(f.Function, "mithrandie/csvq/lib/") && !strings.HasSuffix(f.Function, "value.Discard") && !strings.Contains(f.Function, "verifshim") {
+			return strings.TrimPrefix(f.Function, "github.com/mithrandie/csvq/lib/")
+		}
+		if !more {
+			return "?"
+		}
+	}
+}
+
+func trackDiscard(p any) {
+	k := ptrKey(p)
+	if k == 0 {
+		return
+	}
+	who := csvqCaller()
+	poolMu.Lock()
+	if first, ok := inPool[k]; ok {
+		doubleFrees = append(doubleFrees, who+" after "+first.who)
+	} else {
+		inPool[k] = pooled{p, who}
+	}
+	poolMu.Unlock()
+}
+
+// OnIssue is called by lib/value's getString/getInteger/getFloat/getDatetime with the object they hand out.
+func OnIssue(p any) {
+	if !poolTrack {
+		return
+	}
+	k := ptrKey(p)
+	poolMu.Lock()
+	delete(inPool, k)
+	poolMu.Unlock()
 }
